@@ -8,6 +8,7 @@ PROPERTY on what the two application ends wrote and read. There is no extracted 
 check: the Coq side (Properties/C01.v) is the composition of the C09/C05/C17 theorems with
 kcp-go/smux as a stated hypothesis; this check is that composition's tie to the code."""
 import os
+import shutil
 import signal
 import subprocess
 import time
@@ -52,9 +53,9 @@ def evaluate(line, res):
                         "%s bytes are missing (read %d of %d written)" % (name, who, mis, at, (int(at) - mis) if at != "-" else "?", r, w))
             if cls == "dup":
                 return ("bytes-duplicated-or-reordered", "%s stream: at offset %d the %s read bytes that were written at offset %s "
-                        "(delivered again or out of order; read %d, written %d)" % (name, who, mis, at, r + extra, w))
+                        "(delivered again or out of order; read %d, written %d)" % (name, mis, who, at, r + extra, w))
             return ("foreign-bytes", "%s stream: at offset %d the %s read bytes that occur nowhere in what was written "
-                    "(read %d, written %d)" % (name, who, mis, r + extra, w))
+                    "(read %d, written %d)" % (name, mis, who, r + extra, w))
         if r > w:
             return ("foreign-bytes", "%s stream: %d bytes read but only %d written" % (name, r, w))
         if st == "done" and d[name + ".wsha"] != d[name + ".rsha"]:
@@ -148,6 +149,7 @@ def gen(ctx):
     add("killed-before-datachannel", Q, Q, ["c0:stop=%d" % rng.randrange(0, 200000), "b1:killall"])
     add("cut-all", Q, Q, ["t:cutall=%d" % rng.randrange(200, 15000), "t:cutall=%d" % rng.randrange(15000, 30000)], mx=3, proxies=3)
     add("refuse", Q, Q, ["c0:cutd=%d" % rng.randrange(0, 200000), "c0:refuse=0,15000"])
+    add("no-proxy-ever-again", Q, 2 * M, ["c0:extinct=%d" % rng.randrange(1000, 400000)], stall=45000)
     add("tiny", 0, 0, ["c0:cutu=14"])
     add("tiny", 1, 1, ["c0:kill=0"])
     kinds = ["cutu", "cutd", "rstu", "rstd", "stop", "kill", "term", "freeze", "pause"]
@@ -167,7 +169,9 @@ def gen(ctx):
 # ------------------------------------------------------------------ running
 
 def run_driver(exe, broker, lines, par, timeout):
-    env = dict(os.environ, VERIF_E2E_BROKER=broker, VERIF_E2E_PAR=str(par))
+    tmp = os.path.join(vlib.TMP, "c01-%d-%d" % (os.getpid(), int(time.time() * 1000) % 1000000))
+    os.makedirs(tmp, exist_ok=True)
+    env = dict(os.environ, VERIF_E2E_BROKER=broker, VERIF_E2E_PAR=str(par), TMPDIR=tmp)
     p = subprocess.Popen([exe], stdin=subprocess.PIPE, stdout=subprocess.PIPE, stderr=subprocess.PIPE, text=True,
                          env=env, start_new_session=True)
     try:
@@ -184,6 +188,8 @@ def run_driver(exe, broker, lines, par, timeout):
             p.wait(timeout=10)
         except subprocess.TimeoutExpired:
             pass
+        if not os.environ.get("VERIF_E2E_KEEP"):
+            shutil.rmtree(tmp, ignore_errors=True)
     res = [l for l in out.split("\n") if l]
     if len(res) != len(lines):
         res = (res + ["!machinery driver returned %d of %d lines: %s" % (len(res), len(lines), err[-400:].replace("\n", " | "))] * len(lines))[:len(lines)]
